@@ -239,77 +239,107 @@ var c05bDiffs int
 
 // c05bCorr: model vs implementation for a batch of cases (two driver rounds).
 func c05bCorr(c *Ctx, st *h.Stage, cases []*c05bCase) error {
-	lines := make([]string, 0, 2*len(cases))
+	lines := make([]string, 0, len(cases))
 	for _, cs := range cases {
-		g := c05bGroups(cs.toks)
-		lines = append(lines, "model.c05b.requests "+h.Bool(cs.cfg.keepComments)+" "+h.Bool(cs.cfg.inline)+" "+g)
-		lines = append(lines, "trig.c05b "+g)
+		lines = append(lines, "trig.c05b "+c05bGroups(cs.toks))
 	}
 	rep, err := h.Eval(lines)
 	if err != nil {
 		return err
 	}
-	lines = lines[:0]
 	trigs := make([]map[string]bool, len(cases))
-	for i, cs := range cases {
+	for i := range cases {
 		trigs[i] = map[string]bool{}
-		if tb, ok, _ := h.DecodeReply(rep[2*i+1]); ok {
+		if tb, ok, _ := h.DecodeReply(rep[i]); ok {
 			for _, t := range h.DecodeListReply(tb) {
 				trigs[i][string(t)] = true
 			}
 		}
-		rb, ok, msg := h.DecodeReply(rep[2*i])
-		if !ok {
-			c.R.Add(h.Finding{Stage: st.Name, Kind: "diff", What: "model.c05b.requests: model error " + msg, Input: cs.key, Hex: h.Hex(cs.src), Config: cs.cfg.String()})
-			cs.skip = "model error"
-			lines = append(lines, "echo -")
-			continue
+	}
+	// requests / answers: the payload of a style text request depends (through the bracket count of the output)
+	// on what earlier requests returned, so the requests are recomputed with the answers known so far until
+	// nothing new is asked
+	answers := make([][][][]byte, len(cases))
+	seen := make([]map[string]bool, len(cases))
+	regs := make([]*minify.M, len(cases))
+	for i, cs := range cases {
+		seen[i] = map[string]bool{}
+		regs[i] = c05bRegistry(cs.cfg.sub)
+	}
+	pending := make([]int, len(cases))
+	for i := range cases {
+		pending[i] = i
+	}
+	for round := 0; round < 6 && len(pending) > 0; round++ {
+		lines = lines[:0]
+		for _, i := range pending {
+			cs := cases[i]
+			lines = append(lines, "model.c05b.requests "+h.Bool(cs.cfg.keepComments)+" "+h.Bool(cs.cfg.inline)+" "+c05bGroups(cs.toks)+" "+h.Groups(answers[i]))
 		}
-		items := h.DecodeListReply(rb)
-		m := c05bRegistry(cs.cfg.sub)
-		var answers [][][]byte
-		seen := map[string]bool{}
-		for k := 0; k+3 <= len(items); k += 3 {
-			kind, mime, payload := string(items[k]), items[k+1], items[k+2]
-			var out []byte
-			present := false
-			akind := "0"
-			switch kind {
-			case "0", "1", "2":
-				if kind == "2" {
-					akind = "2"
-				}
-				var failed bool
-				out, present, failed = c05bSub(m, mime, payload, kind == "2")
-				if failed {
-					cs.skip = "style minifier returns an error"
-				}
-				if kind == "1" && len(out) > len(payload) {
-					cs.skip = "style minifier lengthens a CDATA section (the real code appends into the lexer buffer)"
-				}
-				st.Tag("request=style-" + map[string]string{"0": "text", "1": "cdata", "2": "attr"}[kind])
-			case "3":
-				akind = "3"
-				var ok bool
-				out, ok = c05bPath(payload)
-				present = true
-				if !ok {
-					cs.skip = "path answer not recoverable through the public API"
-				}
-				st.Tag("request=path")
-			}
-			id := akind + "\x00" + string(mime) + "\x00" + string(payload)
-			if seen[id] {
+		rep, err = h.Eval(lines)
+		if err != nil {
+			return err
+		}
+		var next []int
+		for j, i := range pending {
+			cs := cases[i]
+			rb, ok, msg := h.DecodeReply(rep[j])
+			if !ok {
+				c.R.Add(h.Finding{Stage: st.Name, Kind: "diff", What: "model.c05b.requests: model error " + msg, Input: cs.key, Hex: h.Hex(cs.src), Config: cs.cfg.String()})
+				cs.skip = "model error"
 				continue
 			}
-			seen[id] = true
-			p := []byte("0")
-			if present {
-				p = []byte("1")
+			items := h.DecodeListReply(rb)
+			added := false
+			for k := 0; k+3 <= len(items); k += 3 {
+				kind, mime, payload := string(items[k]), items[k+1], items[k+2]
+				akind := map[string]string{"0": "0", "1": "0", "2": "2", "3": "3"}[kind]
+				id := akind + "\x00" + string(mime) + "\x00" + string(payload)
+				if seen[i][id] {
+					continue
+				}
+				seen[i][id] = true
+				added = true
+				var out []byte
+				present := false
+				switch kind {
+				case "0", "1", "2":
+					var failed bool
+					out, present, failed = c05bSub(regs[i], mime, payload, kind == "2")
+					if failed {
+						cs.skip = "style minifier returns an error"
+					}
+					if kind == "1" && len(out) > len(payload) {
+						cs.skip = "style minifier lengthens a CDATA section (the real code appends into the lexer buffer)"
+					}
+					st.Tag("request=style-" + map[string]string{"0": "text", "1": "cdata", "2": "attr"}[kind])
+				case "3":
+					var ok bool
+					out, ok = c05bPath(payload)
+					present = true
+					if !ok {
+						cs.skip = "path answer not recoverable through the public API"
+					}
+					st.Tag("request=path")
+				}
+				p := []byte("0")
+				if present {
+					p = []byte("1")
+				}
+				answers[i] = append(answers[i], [][]byte{[]byte(akind), mime, payload, p, out})
 			}
-			answers = append(answers, [][]byte{[]byte(akind), mime, payload, p, out})
+			if added {
+				next = append(next, i)
+			}
 		}
-		lines = append(lines, "model.c05b.minify "+h.Bool(cs.cfg.keepComments)+" "+h.Bool(cs.cfg.inline)+" "+c05bGroups(cs.toks)+" "+h.Groups(answers))
+		if round > 0 && len(next) > 0 {
+			st.Tag(fmt.Sprintf("requests=round-%d(payload depends on an earlier answer)", round+1))
+		}
+		pending = next
+	}
+	lines = lines[:0]
+	for i, cs := range cases {
+		lines = append(lines, "model.c05b.minify "+h.Bool(cs.cfg.keepComments)+" "+h.Bool(cs.cfg.inline)+" "+c05bGroups(cs.toks)+" "+h.Groups(answers[i]))
 	}
 	rep, err = h.Eval(lines)
 	if err != nil {
@@ -420,7 +450,6 @@ func c05bJudge(c *Ctx, st *h.Stage, cs *c05bCase, leanTrigs map[string]bool, lea
 				st.Tag("lean-spec=holds")
 			} else {
 				cl, desc = "lean-"+leanCl, "spec.c05b.holds (Verif.Spec.SvgDocSpec.structEquiv) on the tokens of input and output"
-				trig["textAttrDim"] = true // the Lean value relation treats the text-valued attributes literally
 			}
 		} else {
 			st.Tag("lean-spec=not-applicable(guard)")
@@ -675,4 +704,8 @@ var c05bFixed = []string{
 	`<svg><text> a  b </text><text>&#32;</text><text> <![CDATA[ ]]> </text></svg>`,
 	`<svg><style>a{}</style><!--c--><style><!--c-->a { }</style></svg>`,
 	`<svg id="1.50" class="1.0" href="1.0" font-family="1.0" xlink:href="1.0" version="1.10" font-size="1.0"/>`,
+	// escapeCDEnd / bracketWriter (/repo 2fde2e2)
+	`<svg>]<!--c-->]<![CDATA[>]]>&gt;</svg>`, `<svg>]]<metadata><a/></metadata>&gt; ]]&#62; ]]></svg>`, `<svg><style>a]]</style>&gt;<style>]]&gt; a{}</style>&gt;</svg>`,
+	`<svg><style><![CDATA[a]]]]></style><![CDATA[>]]><text>]</text><text>]</text>&gt;</svg>`, `<svg a="]]"/>&gt;<svg>]]<g/>&gt;</svg>`, `<svg>]]<?pi a]]?>&gt;]]<!--c-->&gt;</svg>`,
+	`<svg data-x="1.0" aria-label="10px" lang="1.0" data="1.0" aria="1.0"/>`,
 }
